@@ -10,11 +10,17 @@ def handle (fn : String) (args : List Json) : String :=
   | "format" => match args with
     | [a0, a1] => (do let x0 ← Wire.decStr a0; let x1 ← Wire.decStr a1; pure (Wire.respondWith Wire.encStr (Gen.fr_siret.format x0 x1)) : Option String).getD "badargs"
     | _ => "badargs"
+  | "is_valid" => match args with
+    | [a0] => (do let x0 ← Wire.decStr a0; pure (Wire.respondWith Wire.encBool (Gen.fr_siret.is_valid x0)) : Option String).getD "badargs"
+    | _ => "badargs"
   | "to_siren" => match args with
     | [a0] => (do let x0 ← Wire.decStr a0; pure (Wire.respondWith Wire.encStr (Gen.fr_siret.to_siren x0)) : Option String).getD "badargs"
     | _ => "badargs"
   | "to_tva" => match args with
     | [a0] => (do let x0 ← Wire.decStr a0; pure (Wire.respondWith Wire.encStr (Gen.fr_siret.to_tva x0)) : Option String).getD "badargs"
+    | _ => "badargs"
+  | "validate" => match args with
+    | [a0] => (do let x0 ← Wire.decStr a0; pure (Wire.respondWith Wire.encStr (Gen.fr_siret.validate x0)) : Option String).getD "badargs"
     | _ => "badargs"
   | _ => "nofunc"
 end Driver.D_fr_siret
